@@ -52,21 +52,7 @@ func runC09(c *eng.Ctx, tier string) {
 			}
 		}
 		// the active read: a call in g returning *api.SecretValue whose callee looks up Versions[ActiveVersion]
-		readsActive := func(cal *ssa.Function) bool {
-			okA := false
-			if cal != nil {
-				eng.InstrsDeep(cal, func(_ *ssa.Function, in ssa.Instruction) {
-					if lk, ok := in.(*ssa.Lookup); ok {
-						if fr, _, isF := eng.LoadedField(lk.X); isF && fr.Is("db", "secret", "Versions") {
-							if fr2, _, isF2 := eng.LoadedField(lk.Index); isF2 && fr2.Is("db", "secret", "ActiveVersion") {
-								okA = true
-							}
-						}
-					}
-				})
-			}
-			return okA
-		}
+		readsActive := readsActiveVersion
 		var read *ssa.Call
 		if g != nil {
 			eng.Instrs(g, func(in ssa.Instruction) {
@@ -231,14 +217,7 @@ func runC09(c *eng.Ctx, tier string) {
 			for _, s := range d.sites(gm.Fn) {
 				if call, ok := s.In.(*ssa.Call); ok && s.Call != nil {
 					cal := eng.Callee(&call.Call)
-					okActive := false
-					eng.Instrs(cal, func(in ssa.Instruction) {
-						if lk, ok := in.(*ssa.Lookup); ok {
-							if fr2, _, isF2 := eng.LoadedField(lk.Index); isF2 && fr2.Is("db", "secret", "ActiveVersion") {
-								okActive = true
-							}
-						}
-					})
+					okActive := readsActiveVersion(cal)
 					c.Check(okActive, "R-C09-2", gm.Fn, call.Pos(), "Get: "+eng.CallStr(&call.Call), "returns the active version", "")
 				}
 			}
@@ -424,14 +403,47 @@ func c09FileClient(c *eng.Ctx) {
 			}
 		}
 	})
+	// ... or the lookup is delegated to a getter of the same client that
+	// answers (stored, nil) for a present name and (nil, ErrNotFound) otherwise
+	var getCall *ssa.Call
+	var getErr ssa.Value
 	if lk == nil {
+		eng.Instrs(f, func(in ssa.Instruction) {
+			call, ok := in.(*ssa.Call)
+			if !ok || getCall != nil {
+				return
+			}
+			g := eng.Callee(&call.Call)
+			if g == nil || g == f || g.Signature.Recv() == nil || !eng.IsNamed(g.Signature.Recv().Type(), setecPkg, "FileClient") || !fcGetter(g) {
+				return
+			}
+			for _, a := range call.Call.Args {
+				if eng.Origin(a) == ssa.Value(nameP) {
+					getCall = call
+				}
+			}
+		})
+	}
+	if lk == nil && getCall == nil {
 		c.Bad("R-C09-5", f, f.Pos(), "lookup in FileClient.GetIfChanged", "a comma-ok lookup of the name", "not found")
 		return
 	}
 	var stored ssa.Value
-	for _, r := range *lk.Referrers() {
-		if ex, ok := r.(*ssa.Extract); ok && ex.Index == 0 {
-			stored = ex
+	if lk != nil {
+		for _, r := range *lk.Referrers() {
+			if ex, ok := r.(*ssa.Extract); ok && ex.Index == 0 {
+				stored = ex
+			}
+		}
+	} else {
+		for _, r := range *getCall.Referrers() {
+			if ex, ok := r.(*ssa.Extract); ok {
+				if ex.Index == 0 {
+					stored = ex
+				} else {
+					getErr = ex
+				}
+			}
 		}
 	}
 	for _, r := range eng.Returns(f) {
@@ -439,9 +451,13 @@ func c09FileClient(c *eng.Ctx) {
 		facts := eng.FactsAt(r)
 		present, absent, eq, neq := false, false, false, false
 		for _, cond := range facts {
-			if src, truth, isCO := cond.CommaOk(); isCO && src == ssa.Value(lk) {
+			if src, truth, isCO := cond.CommaOk(); isCO && lk != nil && src == ssa.Value(lk) {
 				present = present || truth
 				absent = absent || !truth
+			}
+			if v, isNil, isE := cond.ErrCheck(); isE && getErr != nil && eng.Origin(v) == getErr {
+				present = present || isNil
+				absent = absent || !isNil
 			}
 			if op, x, y, isCmp := cond.Cmp(); isCmp {
 				for _, pr := range [][2]ssa.Value{{x, y}, {y, x}} {
@@ -454,7 +470,7 @@ func c09FileClient(c *eng.Ctx) {
 			}
 		}
 		switch {
-		case eng.IsGlobalLoad(rv[1], "types/api", "ErrNotFound"):
+		case eng.IsGlobalLoad(rv[1], "types/api", "ErrNotFound") || (getErr != nil && eng.Origin(rv[1]) == getErr):
 			c.Check(absent, "R-C09-5", f, r.Pos(), eng.InstrStr(r), "ErrNotFound exactly for an absent name", "holding: "+factsStr(facts))
 		case eng.IsGlobalLoad(rv[1], "types/api", "ErrValueNotChanged"):
 			c.Check(present && eq, "R-C09-5", f, r.Pos(), eng.InstrStr(r), "ErrValueNotChanged exactly on stored.Version == oldVersion", "holding: "+factsStr(facts))
@@ -465,7 +481,6 @@ func c09FileClient(c *eng.Ctx) {
 		}
 	}
 }
-
 
 // apiRequest: call posts a request to the service: a call of the generic
 // `do` (path and request value are its arguments), or of a helper of the
@@ -511,4 +526,81 @@ func apiRequest(p *eng.Prog, call *ssa.Call) (path string, req ssa.Value, ok boo
 		}
 	}
 	return "", nil, false
+}
+
+// readsActiveVersion: cal (with the helpers it calls) looks bytes up in
+// secret.Versions, and every such lookup is under secret.ActiveVersion (a
+// helper taking the number as a parameter is judged by what cal hands it).
+func readsActiveVersion(cal *ssa.Function) bool {
+	if cal == nil {
+		return false
+	}
+	n, bad := 0, 0
+	eng.InstrsDeep(cal, func(_ *ssa.Function, in ssa.Instruction) {
+		lk, ok := in.(*ssa.Lookup)
+		if !ok {
+			return
+		}
+		if fr, _, isF := eng.LoadedField(lk.X); !isF || !fr.Is("db", "secret", "Versions") {
+			return
+		}
+		for _, idx := range eng.ResolveWithin(cal, lk.Index) {
+			n++
+			if fr2, _, isF2 := eng.LoadedField(idx); !isF2 || !fr2.Is("db", "secret", "ActiveVersion") {
+				bad++
+			}
+		}
+	})
+	return n > 0 && bad == 0
+}
+
+// fcGetter: g is a getter of the file-backed client: it looks its name
+// parameter up in FileClient.db (comma-ok) and answers (stored, nil) exactly
+// for a present name and (nil, ErrNotFound) exactly for an absent one.
+func fcGetter(g *ssa.Function) bool {
+	var nameP *ssa.Parameter
+	for _, prm := range g.Params {
+		if isStringType(prm.Type()) {
+			nameP = prm
+		}
+	}
+	if nameP == nil || g.Blocks == nil || g.Signature.Results().Len() != 2 {
+		return false
+	}
+	var lk *ssa.Lookup
+	eng.Instrs(g, func(in ssa.Instruction) {
+		if l, ok := in.(*ssa.Lookup); ok && l.CommaOk {
+			if fr, _, isF := eng.LoadedField(l.X); isF && fr.Is(setecPkg, "FileClient", "db") && eng.Origin(l.Index) == ssa.Value(nameP) {
+				lk = l
+			}
+		}
+	})
+	if lk == nil {
+		return false
+	}
+	var stored ssa.Value
+	for _, r := range *lk.Referrers() {
+		if ex, ok := r.(*ssa.Extract); ok && ex.Index == 0 {
+			stored = ex
+		}
+	}
+	n := 0
+	for _, r := range eng.Returns(g) {
+		rv := eng.RetVals(r)
+		present, absent := false, false
+		for _, cond := range eng.FactsAt(r) {
+			if src, truth, isCO := cond.CommaOk(); isCO && src == ssa.Value(lk) {
+				present = present || truth
+				absent = absent || !truth
+			}
+		}
+		switch {
+		case eng.IsGlobalLoad(rv[1], "types/api", "ErrNotFound") && absent && eng.IsNilConst(eng.Origin(rv[0])):
+		case eng.IsNilConst(eng.Origin(rv[1])) && present && eng.Origin(rv[0]) == stored:
+		default:
+			return false
+		}
+		n++
+	}
+	return n >= 2
 }
